@@ -146,8 +146,10 @@ func CalculateValidatorFee(valFee sdk.Dec, amountToClaim sdk.Coin) (sdk.Coin, sd
 
 	if valFee.GT(sdk.NewDecFromInt(sdk.NewIntFromUint64(0))) {
 		decCoin := sdk.NewDecCoinFromCoin(amountToClaim)
-		valFeeAmount := decCoin.Amount.Mul(valFee).TruncateInt64()
-		valFeeCoin = sdk.NewCoin(amountToClaim.Denom, sdk.NewIntFromUint64(uint64(valFeeAmount)))
+		// TruncateInt, not TruncateInt64: the latter panics for fees above 2^63-1 (e.g. 1% of a
+		// claim of 10^21 of an 18 decimal token), which made every claim/cancel/top up fail
+		valFeeAmount := decCoin.Amount.Mul(valFee).TruncateInt()
+		valFeeCoin = sdk.NewCoin(amountToClaim.Denom, valFeeAmount)
 		finalClaimCoin = amountToClaim.Sub(valFeeCoin)
 	} else {
 		valFeeCoin = sdk.NewCoin(amountToClaim.Denom, sdk.NewIntFromUint64(0))
